@@ -536,10 +536,10 @@ RULE_ADDENDA = {
     "C04": "a third of the in-process cases route records to an additional file writer; endings include two concurrent shutdowns; 1 of 8 cases is flush() while 1-4 other threads log",
     "C06": "every 16th case is a DST child (history in one pass of the repeated hour vs. the same history a week later, 4 zones, optional file from the skipped hour, listing against the directory); empty discriminant among the name parts",
     "C07": "background-cleanup cases hold the logging thread back between rename and writer swap; judged only now and then; every 48th case (thorough: half the cases of shards 8-15) is a controlled-schedule configuration (shape prefix sched|, non-trivial iff a step of one thread ran inside the other's rotation / work list)",
-    "C08": "reopen_output() with the file in place is one of the operations",
-    "C09": "reopen_output() with the file in place is one of the operations",
+    "C08": "reopen_output() with the file in place is one of the operations; recursive logging (a record whose Display argument logs another record through the same logger) is one of the operations",
+    "C09": "reopen_output() with the file in place is one of the operations; explicit rotations whose new file cannot be opened (fault at fs point open; the file keeps its start time and name)",
     "C10": "memory buffer as primary output with limits around the line lengths; recursion nesting depth 2-4; every 32nd case is a DST child",
-    "C11": "histories contain reopen_output() with the file in place",
+    "C11": "histories contain reopen_output() with the file in place; every 2nd case adds kill points that do not depend on the hooks: the history runs under strace, which delivers SIGKILL at the entry of the n-th rename/unlink/symlink/openat/write naming the log directory (taken from a traced run; sampled, thorough: all when at most 80)",
     "C12": "two thirds of the cases register an additional writer of low ceiling; every 20th case has the specfile watcher as one more controlled participant",
     "C13": "lists with repeated names; an enabled() query per routed record",
     "C14": "near-miss classes include <fixed>_<infix>.gz without the suffix and sub-directories named like a family file",
@@ -547,7 +547,7 @@ RULE_ADDENDA = {
     "C16": "per-case equivalent builder call sequences; try_from paths also with rotation + listing; every 32nd case is a DST child",
     "C17": "a tenth of the strings is long; every 16th string also through the RUST_LOG entry points; blank-part vs empty-part relation for inputs the docs leave open",
     "C18": "every 8th case: primary file/stderr/stdout + an additional file writer, one reopen_output for all, immediate reads of unbuffered files; every 16th case: reopen_output in a loop while 2-4 threads log through rotations",
-    "C19": "a bystander file writer in every fault history; a third of the cases with the background cleanup thread; partition under cleanup faults and cleanup limits after recovery are judged; real faults: blocked rotation target, rotated name longer than NAME_MAX, controlled failed-open-then-background-cleanup order, RLIMIT_FSIZE",
+    "C19": "a bystander file writer in every fault history; a third of the cases with the background cleanup thread; partition under cleanup faults and cleanup limits after recovery are judged; real faults: blocked rotation target, rotated name longer than NAME_MAX, controlled failed-open-then-background-cleanup order, RLIMIT_FSIZE; every 10th case: failures of the system calls themselves (strace -e inject=<call>:error=<errno>:when=<n>[..m] on the n-th write/openat/rename/unlink naming the log directory of a child history; the strace log attributes each failure to the operation window announced in the ack file)",
     "C20": "shards 4-7 and 12-15 run with UTC forced; children configure formats explicitly, through AdaptiveFormat, or not at all",
 }
 for _k, _v in RULE_ADDENDA.items():
